@@ -48,18 +48,31 @@ def make_origin_harness(bases):
         base = bases[bno]
         pos = positions_of(base)
         p = e.choice(len(pos), "position")
-        k1 = e.pick(POOL, "origin_x")
-        k2 = e.pick(POOL, "origin_y")
+        i1 = e.choice(len(POOL), "origin_x")
+        i2 = i1 + e.choice(len(POOL) - i1, "origin_y")  # unordered pairs: both argument orders are compared below
+        k1, k2 = POOL[i1], POOL[i2]
         rx, ry = with_origin(base, pos[p], k1), with_origin(base, pos[p], k2)
         mode = e.pick(["same-position", "moved"], "mode")
         if mode == "moved":
             # y carries the origin at another position instead
             q = e.choice(len(pos), "position_y")
             ry = with_origin(base, pos[q], k1)
-        x, y = build(rx), build(ry)
-        scenario = {"kind": "origin-at-depth-%d" % len(pos[p]), "tree": describe(base), "position": str(pos[p]), "origin_x": k1, "origin_y": k2, "mode": mode}
+        # the registry history must not matter: x may be unregistered before y is built, in which
+        # case y's nodes take over the ids of x's nodes wherever their id pre-images agree
+        history = e.pick(["both-registered", "x-detached-before-y-is-built", "x-root-replaced-by-y"] if mode == "same-position" else ["both-registered"], "registry_history")
+        x = build(rx)
+        if history == "x-detached-before-y-is-built":
+            x.detach()
+            y = build(ry)
+        elif history == "x-root-replaced-by-y":
+            x.detach()
+            y = build(ry)
+            x, y = y, x
+        else:
+            y = build(ry)
+        scenario = {"kind": "origin-at-depth-%d" % len(pos[p]), "tree": describe(base), "position": str(pos[p]), "origin_x": k1, "origin_y": k2, "mode": mode, "registry_history": history}
         _check_pair(e, x, y, rx, ry, scenario)
-        e.distinct((bno, p, k1, k2, mode))
+        e.distinct((bno, p, k1, k2, mode, history))
         return scenario
 
     return harness
